@@ -39,6 +39,21 @@ def bad_flags(st):
     return sorted(f for f in st.flags if f.startswith(('imprecise', 'opaque', 'trunc')) and not f.startswith('imprecise:branch'))
 
 
+def expand_sums(v, sums):
+    """replace every SUM(coll) symbol by its per-element term (one representative iteration)"""
+    from ..absint import lin_add
+    if not isinstance(v, Int):
+        return v
+    out = Int.const(v.c)
+    for s_, k in v.terms:
+        if s_ in sums and isinstance(sums[s_], Int):
+            e = sums[s_]
+            out = lin_add(out, Int([(a, b * k) for a, b in e.terms], e.c * k), 1)
+        else:
+            out = lin_add(out, Int([(s_, k)], 0), 1)
+    return out
+
+
 def compare_len_enc(ctx, rule, label, prog, enc_path, len_path, leaf_crates=(), where=None, allow_flags=(), classify=None):
     """returns number of compared (enc outcome, len outcome) pairs"""
     e = summary(prog, enc_path, 'enc', leaf_crates)
@@ -73,6 +88,11 @@ def compare_len_enc(ctx, rule, label, prog, enc_path, len_path, leaf_crates=(), 
                 continue
             sums_l = dict(lo.st.extra.get('sums') or ())
             sums_e = dict(notes)
+            if total != lo.value and expand_sums(total, sums_e) == expand_sums(lo.value, sums_l):
+                # the same header plus the same per-element term: one side sums over the collection with an iterator adaptor, the
+                # other adds the element's length in an explicit loop (one representative iteration) - the same function
+                ctx.ok(rule, key + '|loop')
+                continue
             if total != lo.value:
                 items = l2.items_of(eo.st.events)
                 alt = classify(lm, lo.st, eo.st.events, total, lo.value) if classify else None
